@@ -1,10 +1,13 @@
 package props
 
 import (
-	"strings"
-	"unicode/utf8"
 	"fmt"
+	"strings"
+	"time"
+	"unicode/utf8"
 
+	"github.com/jotaen/klog/klog/app/cli"
+	"github.com/jotaen/klog/klog/app/cli/util"
 	"github.com/jotaen/klog/klog/parser"
 	"verifharness/core"
 	"verifharness/gen"
@@ -176,6 +179,27 @@ func c01Valid(e *core.Env, r *core.Rand, doc *gen.Out) {
 			e.Count("conforming_documents_also_piped_into_the_binary", 1)
 		}
 	}
+	// `klog print FILE` (warnings and all) ends with status 0 for a conforming file
+	edge := false
+	for i := range doc.Doc.Recs {
+		if dd := doc.Doc.Recs[i].Date.Days(); dd-ref.MinDay <= 1 || ref.MaxDay-dd <= 1 {
+			edge = true
+		}
+	}
+	if (edge || core.Hash64("c01-print", doc.Text)%5 == 0) && !strings.Contains(doc.Text, "\x00") && len(doc.Text) < 20000 {
+		f := writeFile(e.Dir, "c01print.klg", doc.Text)
+		res := runRO(e, &cli.Print{InputFilesArgs: util.InputFilesArgs{File: files(f)}}, 1, "", "", time.Date(2024, 3, 15, 12, 0, 0, 0, time.UTC))
+		w := map[string]any{"text": trunc(doc.Text, 4000), "how": "klog print FILE"}
+		if res.Panic != nil {
+			e.Violation("print-crash: "+res.Panic.Site(), "`klog print FILE` crashes on a conforming file (exit status 2): "+res.Panic.Value, w)
+			return
+		}
+		if res.Err != nil {
+			e.Violation("conforming-text-rejected", fmt.Sprintf("`klog print FILE` ends with an error (status %d) on a conforming file: %s", res.Err.Code().ToInt(), res.Err.Error()), w)
+			return
+		}
+		e.Count("conforming_documents_also_printed", 1)
+	}
 	e.Count("conforming_documents", 1)
 	if len(doc.Doc.Recs) >= 2 && (doc.Feat["shifted"] || doc.Feat["h24_00"] || doc.Feat["h12"]) && (doc.Feat["crlf"] || doc.Feat["ws_only_lines"] || doc.Feat["no_final_newline"] || doc.Feat["mixed_eol"]) {
 		e.Nontrivial(core.Hash64("doc", doc.Text))
@@ -236,6 +260,20 @@ func c01Mutant(e *core.Env, r *core.Rand, text, rules string, first gen.Mutant, 
 			}
 			e.Count("mutants_also_piped_into_the_binary", 1)
 		}
+	}
+	if core.Hash64("c01-print", text)%5 == 0 && !strings.Contains(text, "\x00") && len(text) < 20000 {
+		f := writeFile(e.Dir, "c01print.klg", text)
+		res := runRO(e, &cli.Print{InputFilesArgs: util.InputFilesArgs{File: files(f)}}, 1, "", "", time.Date(2024, 3, 15, 12, 0, 0, 0, time.UTC))
+		w := map[string]any{"text": text, "rule": rec.Rule, "line": rec.BadLine + 1, "how": "klog print FILE"}
+		if res.Panic != nil {
+			e.Violation("print-crash: "+res.Panic.Site(), "`klog print FILE` crashes: "+res.Panic.Value, w)
+			return
+		}
+		if res.Err == nil {
+			e.Violation("nonconforming-text-accepted: "+rec.Rule, fmt.Sprintf("`klog print FILE` ends with status 0 for a text that breaks a MUST rule at line %d (%s; operator %s)", rec.BadLine+1, rec.Rule, rules), w)
+			return
+		}
+		e.Count("mutants_also_printed", 1)
 	}
 	e.Count("mutants", 1)
 	e.Count("mutant_rule_"+rec.Rule, 1)
